@@ -5,7 +5,7 @@ the middle element  lo + floor((hi - lo) / 2), the callback gets (probe, key) re
 interval shrinks as the reference says (upper-bound search: cmp > 0 -> hi = mid, otherwise lo = mid + 1; sort_fore: cmp > 0 ->
 b = mid + 1, otherwise i = mid - 1); for one iteration of a bubble loop the callback gets (left neighbour, right neighbour) of
 adjacent elements, cmp > 0 exchanges exactly these two and the walk continues, otherwise it stops.  These tables are what makes
-the result sorted (textbook argument); which way an equal key goes is not prescribed."""
+the result sorted (textbook argument); an equal key goes behind the elements it compares equal to, like in the reference."""
 import sympy as sp
 import fm, lin, alg
 from lin import Effect
@@ -36,7 +36,7 @@ def elem_index(C, e, siz):
     return lin.divide(off, siz)
 
 
-def check(C, fn, name, dom, loop_leaves, facts0, rep):
+def check(C, fn, name, dom, loop_leaves, facts0, rep, leaves=()):
     suffix = name[len('a_%s_' % C.kind):]
     if suffix not in BINARY:
         return
@@ -62,11 +62,11 @@ def check(C, fn, name, dom, loop_leaves, facts0, rep):
                 sign = {'<': 'gt', '>=': 'le', '<=': 'ge', '>': 'lt'}.get(c.rel(), sign)
         if sign is None:
             continue
-        # equal keys may go either way (the property asks for a sorted result, not for stability)
-        if sign == 'ge':
-            sign = 'gt'
-        if sign == 'lt':
-            sign = 'le'
+        # equal keys: the reference moves on only for cmp > 0, so the new / moved element ends up behind the elements it compares equal
+        # to (arrival order kept); a test that also moves on for cmp == 0 produces a different sequence
+        if sign in ('ge', 'lt'):
+            probs.append('the comparison result is tested as %s 0, the reference tests > 0: elements that compare equal would change places' % ('>=' if sign == 'ge' else '<'))
+            continue
         a0, a1 = elem_index(C, cbs[0], siz), elem_index(C, cbs[1], siz)
         # the two ends of a binary search are the two integer loop variables; the lower end is the one that starts at a constant
         # (0 or 1), whatever the variables are called
@@ -152,9 +152,49 @@ def check(C, fn, name, dom, loop_leaves, facts0, rep):
             le_ = any(isinstance(c, alg.Cond) and any(str(x).startswith('cb') for x in sp.sympify(c.a).free_symbols) and c.rel() == '<=' for c in lf.pc)
             if le_:
                 probs.append('the bubble walk continues although the neighbours are in order')
+    # a bubble walk is left either because the neighbours are in order or because the moving element has arrived at the far end of the
+    # sequence: a path that leaves the function right behind an exchange (last comparison > 0, loop test false) must have it at
+    # position 0 (sort_back) resp. num_ - 1 (sort_fore)
+    nend = 0
+    if suffix in ('sort_fore', 'sort_back'):
+        for lf in leaves:
+            sw = [e for e in lf.calls if isinstance(e, Effect) and e.name == 'a_swap']
+            if len(sw) < 2:
+                continue
+            last_sign = None
+            for c in lf.pc:
+                if not isinstance(c, alg.Cond):
+                    continue
+                if any(str(x).startswith('cb') for x in sp.sympify(c.a).free_symbols) and sp.sympify(c.b) == 0:
+                    last_sign = {'>': 'gt', '<=': 'le', '>=': 'ge', '<': 'lt'}.get(c.rel(), last_sign)
+                elif any(str(x).startswith('cb') for x in sp.sympify(c.b).free_symbols) and sp.sympify(c.a) == 0:
+                    last_sign = {'<': 'gt', '>=': 'le', '<=': 'ge', '>': 'lt'}.get(c.rel(), last_sign)
+            if last_sign != 'gt':
+                continue
+            idx = [elem_index(C, e, siz) for e in sw[-2:]]
+            if any(i is None for i in idx):
+                continue
+            nend += 1
+            try:
+                cases = lin.cases_of(dom, lf, facts0, extra_terms=idx)
+            except Unsupported as e:
+                probs.append(str(e))
+                continue
+            for cs in cases:
+                def le(x, y, cs=cs):
+                    try:
+                        return fm.entails(cs.cons, lin.subst_con(fm.le(x, y), cs.kenv))
+                    except fm.NonLinear:
+                        return False
+                if suffix == 'sort_back':
+                    if not (le(idx[0], 0) or le(idx[1], 0)):
+                        probs.append('the bubble walk towards the front can end behind an exchange of elements %s and %s: the moving element need not have reached position 0' % (idx[0], idx[1]))
+                else:
+                    if not (le(S('num_') - 1, idx[0]) or le(S('num_') - 1, idx[1])):
+                        probs.append('the bubble walk towards the back can end behind an exchange of elements %s and %s: the moving element need not have reached the last position' % (idx[0], idx[1]))
     if probs:
         rep.bad('B9', name, '; '.join(sorted(set(probs))[:2]), loc=loc, key='%s: comparison steps' % name)
     elif nb + nbub == 0:
         rep.unk('B9', name, 'no comparison iteration recognised', loc=loc)
     else:
-        rep.ok('B9', name, '%d binary-search and %d bubble iteration path(s) match the reference tables' % (nb, nbub), loc=loc)
+        rep.ok('B9', name, '%d binary-search and %d bubble iteration path(s) match the reference tables%s' % (nb, nbub, '; %d exit(s) behind an exchange have the element at the far end' % nend if nend else ''), loc=loc)
